@@ -251,6 +251,21 @@ def build_special(case):
         rec = RW.serialize(RW.build_streams(fe, len(body), False, True, "auto", True, "omit", main_id=0x17))
         return body + packed, rec
 
+    if what.startswith("manypack") or what.startswith("manybind"):
+        # a few hundred bytes (the header compresses to nothing) that declare very many pack streams of size 0 / one coder with very many
+        # streams and bind pairs: the work must stay proportional to the declared counts, not to their square
+        from ref7z.codec import enc_number as enc_num
+
+        n = int(what[8:])
+        if what.startswith("manypack"):
+            hdr = b"\x01\x04\x06" + enc_num(0) + enc_num(n) + b"\x09" + b"\x00" * n + b"\x00" + b"\x00" + b"\x00"
+        else:
+            folder = enc_num(1) + b"\x11\x00" + enc_num(n) + enc_num(n) + b"".join(enc_num(i + 1) + enc_num(i) for i in range(n - 1))
+            hdr = (b"\x01\x04\x06" + enc_num(0) + enc_num(1) + b"\x09" + enc_num(0) + b"\x00" + b"\x07\x0b" + enc_num(1) + b"\x00" + folder +
+                   b"\x0c" + enc_num(0) * n + b"\x00" + b"\x00" + b"\x00")
+        coder = [{"m": RC.M_LZMA2, "dict": 1 << 20}]
+        body, rec = wrap(hdr, b"")
+        return RW.seal(body, rec)
     if what.startswith("nested"):
         depth = int(what[6:])
         payload = inner
@@ -396,6 +411,11 @@ class C05(Check):
                         if env.mine(j) and not (what in ("selfref", "cycle2") and coder == "lzma"):
                             yield {"kind": "special", "what": what, "coder": coder, "crc": crcflag, "seed": seed, "ops": [], "calls": ["getnames", "extractall_null", "testzip"],
                                    "pw": "none", "how": "stream" if j % 2 else "path"}
+        for what in ("manypack300000", "manybind150000", "manypack3000", "manybind2000"):
+            j += 1
+            if env.mine(j):
+                yield {"kind": "special", "what": what, "coder": "copy", "crc": True, "seed": "copy", "ops": [], "calls": ["getnames", "testzip"], "pw": "none",
+                       "how": "stream"}
         yield from self.sweep(env, 1 << 20)
         # explicit histories the property names: extract twice without reset, testzip after extractall, on every seed
         i = 0
